@@ -345,9 +345,10 @@ class Builder:
     """bottom-up chains: start at a parameter leaf and wrap it in operators until a residual type is reached;
     side operands are other parameters (preferred, so that residuals mix parameters) or constant inputs"""
 
-    def __init__(self, rng, bshape, param_types, frozen, wide=0.0):
+    def __init__(self, rng, bshape, param_types, frozen, wide=0.0, full=False):
         self.rng = rng
         self.wide = wide
+        self.full = full        # every leaf carries the full batch shape (item-wise separable programs)
         self.bshape = list(bshape)
         self.leaves = []
         for ty, fr in zip(param_types, frozen):
@@ -356,8 +357,8 @@ class Builder:
 
     def new_leaf(self, ty, role, rg=True):
         rng = self.rng
-        zerodim = ty[0] == "S" and role == "param" and rng.random() < 0.5
-        lshape = [] if zerodim else sub_shape(rng, self.bshape)
+        zerodim = ty[0] == "S" and role == "param" and rng.random() < 0.5 and not self.full
+        lshape = [] if zerodim else (list(self.bshape) if self.full else sub_shape(rng, self.bshape))
         n = int(math.prod(lshape))
         vals = [gen_leaf_item(rng, ty, wide=rng.random() < self.wide) for _ in range(n)]
         lf = {"role": role, "ty": list(ty), "lshape": lshape, "values": vals, "rg": bool(rg)}
